@@ -24,8 +24,8 @@ CHECKS = {
         "only. One known finding: LayeredRayTracing2D._search_angles reads NumPy's global stream.",
    technique="Coq proof (checker soundness, prefix) + AST-generated effect table + differential byte comparison", ref="5/C09"),
  "C12": dict(
-   text="Theorems over a Kahn-style process network (sequential processes, FIFO queue per ordered pair holding at most cap >= 1 messages or unbounded, blocking receive, "
-        "sender blocked by a full queue) whose programs are generated from the "
+   text="Theorems over a Kahn-style process network (sequential processes, blocking receive; pipes either FIFO queues holding at most cap >= 1 messages or unbounded, a "
+        "full queue blocking the sender, or synchronous: send and receive one joint step) whose programs are generated from the "
         "exchange schedule exactly as _sample_loop reads it: (1) steps of distinct chains commute (diamond), so every maximal interleaving from a state with one "
         "terminating run has the same length and final state; (2) for EVERY chain count, proposal count, interval >= 1, exchange on/off and every schedule whose "
         "looked-up rows exist and pair distinct existing chains, the sequential reading of the run is an execution that finishes all chains -- hence no interleaving "
@@ -35,8 +35,8 @@ CHECKS = {
         "cooperative process/pipe stand-ins under lowest-first, highest-first, seeded-random and exhaustively enumerated interleavings, and as real processes; "
         "files compared bitwise across interleavings; statement re-evaluated in Python; binary64 instance of the network co-executed (columns, pipe events "
         "against the generated programs, schedule guard, a second scheduler).",
-   note="Trusted: Coq kernel; functional_extensionality_dep (queues are functions); harness; pipes are FIFO, pickle their payload, recv blocks; any capacity >= 1 message "
-        "(a message larger than the OS pipe buffer is not modelled); chains share no memory. Transitions, targets, exp "
+   note="Trusted: Coq kernel; functional_extensionality_dep (queues are functions); harness; pipes are FIFO, pickle their payload, recv blocks; buffered with any capacity >= 1 "
+        "message, or synchronous (byte-level partial writes in between are not modelled); chains share no memory. Transitions, targets, exp "
         "and exchange uniforms enter the float instance as observed tables (the transitions are C02/C04/C06's subject).",
    technique="Coq proof (diamond/Kahn determinacy, canonical-run construction by induction over proposals and rows, exchange algebra) + controlled-scheduler co-execution", ref="5/C12"),
  "C20": dict(
